@@ -31,6 +31,10 @@ def run(ctx, rep) -> None:
     from concurrent.futures import ProcessPoolExecutor
     from vf import daemons as D
     dscs = D.crafted() + D.gen_scenarios(ctx.seed, 260 if ctx.quick else 3000)
+    # leg C: configurations and histories drawn by TLC itself (-simulate on Sim_Spawning) replayed into the real operator
+    tl = D.tlc_scenarios(ctx.seed + 1, 60 if ctx.quick else 600)
+    rep.extra['tlc_generated_daemon_histories'] = len(tl)
+    dscs += tl
     with ProcessPoolExecutor(16) as ex:
         dtraces = list(ex.map(D.run_scenario, dscs, chunksize=4))
     dv = D.judge(dtraces, rep, focus='finalizer_released_while_daemon_alive')
